@@ -325,3 +325,9 @@ func ZZContext(e *Engine, pid *PID, msg any, sender *PID) *Context {
 	c.sender = sender
 	return c
 }
+
+// RegisterProc registers an arbitrary Processer under id.
+func (z *ZZEngine) RegisterProc(id string, p Processer) { z.E.Registry.lookup[id] = p }
+
+// Registered reports whether id is registered on the engine.
+func (z *ZZEngine) Registered(id string) bool { _, ok := z.E.Registry.lookup[id]; return ok }
